@@ -88,7 +88,7 @@ theorem putTime_frame (n : Nat × Nat × Nat) (nanX : X) (h h' : Heap α X L) (c
       simp only [hx, Option.bind_eq_bind, Option.bind_some, Option.pure_def, Option.some.injEq,
         Prod.mk.injEq] at hs
       obtain ⟨rfl, rfl⟩ := hs
-      obtain ⟨hk, hr⟩ := keeps_allocX n h hb xv
+      obtain ⟨hk, hr⟩ := keeps_allocX n h hb (setCol (nanX, nanX) col (getCol xv col))
       exact ⟨hk, o1, fun r hr' => (by cases hr'; exact hr), o3, o4⟩
   · rename_i rx cx hmx hcx
     cases hx : h.xs[rx]? with
